@@ -1026,6 +1026,8 @@ impl<R: RefCounter, PR: PathRefCounter, H: Header> Memory<R, PR, H> {
   /// ## Safety:
   /// - This method must be invoked in the drop impl of `Arena`.
   pub(crate) unsafe fn unmount(&mut self) {
+    #[cfg(al8n_rarena_verif)]
+    crate::verif::api_event(crate::verif::ApiEvent::Unmount);
     unsafe {
       #[cfg(all(feature = "memmap", not(target_family = "wasm")))]
       if self.lock_meta {
